@@ -155,6 +155,20 @@ def check(rep, tier, seed):
                          stdin=jobs[base + 4][1].decode(), observed=rev[1].decode(errors="replace")[:300],
                          expected="axes of %s reversed" % ref[1].decode(errors="replace")[:200],
                          detail="reordering the labels did not permute the axes correspondingly")
+    # the samples file given as something that is not a regular file: a named pipe, /dev/stdin (the call set by path)
+    from common import run_cli_fifo
+    for gi, (base, nl, sm) in enumerate(groups[:6 if tier == "quick" else 40]):
+        vpath = os.path.join(WORK, "c09_in_%d.vcf" % gi)
+        open(vpath, "wb").write(jobs[base][1])
+        fifo = os.path.join(WORK, "c09_fifo_%d" % gi)
+        for name, (rc, so, se) in (("named pipe", run_cli_fifo(["create", "-S", fifo, vpath], fifo, samples_file_bytes(sm))),
+                                   ("/dev/stdin", run_cli_many([(["create", "-S", "/dev/stdin", vpath], samples_file_bytes(sm))])[0])):
+            rep.count("binary-invariances", "samples file as %s: %s" % (name, model_samples(sm)), True)
+            if (rc, so) != (res[base][0], res[base][1]):
+                rep.fail(kind="property-oracle", cls="axes:samples-file-not-regular", case="samples file given as %s" % name, argv=["sfs", "create", "-S", "<%s>" % name, "<vcf>"],
+                         stdin=jobs[base][1].decode(), observed={"rc": rc, "stdout": so.decode(errors="replace")[:300], "stderr": se.decode(errors="replace")[-200:]},
+                         expected=res[base][1].decode(errors="replace")[:300], detail="--samples-file read from a %s differs from --samples with the same content" % name)
+        os.remove(vpath)
     for k in range(25 if tier == "quick" else 250):
         try:
             os.remove(os.path.join(WORK, "c09_samples_%d.txt" % k))
